@@ -78,3 +78,7 @@ Inductive mark_mode := MarkAlways | MarkIfUnset | MarkUnknown.
    record is in the queue: what a task put before handing back its result is there before the result is) or a plain
    multiprocessing.Queue (a put only fills a buffer that a feeder thread writes out later)? *)
 Inductive log_queue_kind := LogQueueSync | LogQueueAsync | LogQueueUnknown.
+
+(* lab.TaskCoordinator.run: is the runner of a call built from the Lab's context as it is when run_tasks is called (CtxAtRun), or
+   from something bound when the Lab was constructed (CtxAtInit)? *)
+Inductive ctx_binding := CtxAtRun | CtxAtInit | CtxBindUnknown.
